@@ -71,6 +71,9 @@ def child_env():
     return env
 
 
+PYOPT_FLAGS = ["-O", "-W", "error"]
+
+
 def run_shard_child(pid, tier, seed, shard, scratch, timeout):
     tag = "%s%s" % (shard["id"], "@O" if shard.get("pyopt") else "")
     inp = os.path.join(scratch, "in-%s.json" % tag)
@@ -78,7 +81,8 @@ def run_shard_child(pid, tier, seed, shard, scratch, timeout):
     with open(inp, "w") as f:
         json.dump({"prop": pid, "tier": tier, "seed": seed, "shard": shard}, f)
     # pyopt: the same shard in an interpreter started with -O (assert statements and `if __debug__` blocks are not compiled)
-    cmd = [sys.executable, "-B"] + (["-O"] if shard.get("pyopt") else []) + ["-m", "vmon.cli", "--shard-run", inp, outp]
+    # and -W error (every warning is an exception, as under pytest's filterwarnings=error or PYTHONWARNINGS=error)
+    cmd = [sys.executable, "-B"] + (PYOPT_FLAGS if shard.get("pyopt") else []) + ["-m", "vmon.cli", "--shard-run", inp, outp]
     t0 = time.time()
     try:
         p = subprocess.run(
@@ -196,7 +200,7 @@ def run_property(pid, tier, seed, only_shard=None):
     if only_shard is not None:
         shards = [s for s in shards if str(s["id"]) == str(only_shard)]
     # interpreter configuration dimension: every shard (or every PYOPT-th, for the expensive properties) runs a second
-    # time in an interpreter started with -O
+    # time in an interpreter started with -O -W error
     stride = getattr(mod, "PYOPT", 1)
     if stride:
         shards = shards + [dict(s, pyopt=True) for s in shards[::stride]]
@@ -279,7 +283,7 @@ def replay(pid, path):
     rec = json.load(open(path))
     if rec.get("pyopt") and __debug__:
         # observed in an interpreter started with -O: replay it the same way
-        return subprocess.call([sys.executable, "-B", "-O", "-m", "vmon.cli", pid, "--replay", path], cwd=ROOT, env=child_env())
+        return subprocess.call([sys.executable, "-B"] + PYOPT_FLAGS + ["-m", "vmon.cli", pid, "--replay", path], cwd=ROOT, env=child_env())
     repo.activate()
     mod = load_prop(pid)
     shard = {"id": rec.get("shard") or "replay", "replay": True}
